@@ -123,8 +123,8 @@ func Decl(r *vk.RNG, o DeclOpts) *model.Decl {
 		if r.Chance(1, 5) {
 			col = "c_" + f.Name // column named differently from the field
 		}
-		if f.Class == "trace" || f.Name == "ig_name" || f.Name == "src_name" || f.Name == "block_num" {
-			col = f.Name // identity columns and trace_ prefix keep their names (setCols keys on the column prefix)
+		if f.Name == "ig_name" || f.Name == "src_name" || f.Name == "block_num" {
+			col = f.Name // identity columns keep their names here (renamed ones: pipeSpec.RenameIdent)
 		}
 		d.Block = append(d.Block, model.BlockField{Name: f.Name, Column: col, ColType: f.ColType})
 	}
